@@ -137,8 +137,13 @@ MANIFEST_ENTRY = {
     "design_ref": "DESIGN.md section 5 C07",
 }
 
-KINDS = {"E": ["raise", "raisex", "bad"], "O": ["raise", "missing", "raisex", "bad"], "R": ["raise", "missing", "raisex", "bad"],
-         "L": ["raise", "raisex", "bad"], "S": ["raise", "missing", "raisex"], "D": ["raise", "raisex"],
+# every exception class a backend raises for the operation (gcsim.raise_fault): EIO, 404 / ENOENT for an object that IS there
+# (listed and then unsearchable / not yet visible / vanished), EACCES, timeout, an SDK error outside OSError, the local
+# backend's own ValueError; "bad" = an unusable result
+KINDS = {"E": ["raise", "raisex", "bad", "perm", "value"], "O": ["raise", "missing", "raisex", "bad", "perm", "timeout", "value"],
+         "R": ["raise", "missing", "raisex", "bad", "perm", "timeout", "value"],
+         "L": ["raise", "raisex", "bad", "missing", "perm", "timeout", "value"], "S": ["raise", "missing", "raisex", "perm", "timeout", "value"],
+         "D": ["raise", "raisex", "missing", "perm"],
          "J": ["raise", "missing", "raisex", "bad"]}       # J = read_json of a metadata file (pointer plane only)
 DAMAGES = ["missing", "garbage", "empty", "cut-block", "cut-header", "json-empty"]
 
@@ -417,7 +422,7 @@ def run_table(spec: Dict[str, Any]) -> Dict[str, Any]:
                         if not isinstance(damage[1], dict):      # structured damage: the document goes to Model/Doc.v, not the store
                             store = gcsim.store_term(dst)
                     before = gcsim.list_tree(dst)
-                    real = gcsim.run_collect(t, grace, now, plan)
+                    real = gcsim.run_collect(t, grace, now, plan, backend=spec.get("backend"))
                 after = gcsim.list_tree(dst)
                 viol = judge(grace, now, reach, live, markers0, before, after, real, pos, what)
             except (gcsim.CaseTimeout, MemoryError) as e:
@@ -844,7 +849,7 @@ def refresh_faults(spec: Dict[str, Any]) -> Dict[str, Any]:
         probe = os.path.join(base, "probe", "tbl")
         os.makedirs(os.path.dirname(probe))
         gcsim.copy_table(root, probe)
-        pre = gcsim.run_collect(load_table(probe), spec["grace"], now)["pre_trace"]   # refresh() + the hint check
+        pre = gcsim.run_collect(load_table(probe), spec["grace"], now, backend=spec.get("backend"))["pre_trace"]   # refresh() + the hint check
         hint = open(os.path.join(root, gcsim.HINT_KEY)).read().strip()
         out["published"] = f"v{hint}.metadata.json" if hint.isdigit() else hint
         # the metadata files on storage in the order the backend lists them (the scan keeps the first among equals)
@@ -876,7 +881,7 @@ def refresh_faults(spec: Dict[str, Any]) -> Dict[str, Any]:
                 try:
                     with gcsim.bounded(30):
                         t2 = load_table(dst)
-                        real = gcsim.run_collect(t2, spec["grace"], now, [{"op": op, "key": key, "occ": o_sel, "kind": kind}])
+                        real = gcsim.run_collect(t2, spec["grace"], now, [{"op": op, "key": key, "occ": o_sel, "kind": kind}], backend=spec.get("backend"))
                 except (gcsim.CaseTimeout, MemoryError) as e:
                     out["violations"].append({"key": f"hang:{what}", "what": f"{what}: the collection did not finish ({type(e).__name__})", "desc": {"what": what}})
                     continue
@@ -912,6 +917,9 @@ def make_specs(ctx) -> List[Dict[str, Any]]:
         {"snaps": 4, "rewrite": True, "expire": True, "multi_append": 2, "multiblock": True, "dead_writer": "expire"},
         # every reachable list / manifest in the legacy JSON format (JSON fallback of the readers)
         {"snaps": 2, "rewrite": True, "expire": False, "multi_append": 2, "legacy_json": True},
+        # the collection runs on a third-party backend: a StorageBackend subclass implementing only the abstract methods, so
+        # every helper with a default implementation in the base class is the default, composed from the primitives
+        {"snaps": 2, "rewrite": False, "expire": True, "legacy_marker": True, "backend": "thirdparty"},
     ]
     graces = [0] if quick else [0, 3600000]
     for vi, v in enumerate(variants):
